@@ -12,6 +12,81 @@ Section Static.
   with chain_mut := Induction for chain Sort Prop.
   Combined Scheme sbc_ind from stmt_mut, block_mut, chain_mut.
 
+  (* unfolding equations (cbn does not refold mutual fixpoints) *)
+  Lemma desugar_SAtom a g : desugar_stmt L fl (SAtom a) g = ([FAtom a], g).
+  Proof. reflexivity. Qed.
+  Lemma desugar_SBreak id g : desugar_stmt L fl (SBreak id) g = ([FGoto (LLoopEnd id)], g).
+  Proof. reflexivity. Qed.
+  Lemma desugar_SCondBreak k c id g :
+    desugar_stmt L fl (SCondBreak k c id) g = ([FCondGoto k (CExpr c) (LLoopEnd id)], g).
+  Proof. reflexivity. Qed.
+  Lemma desugar_SBlock b g : desugar_stmt L fl (SBlock b) g = desugar_block L fl b g.
+  Proof. reflexivity. Qed.
+  Lemma desugar_SCond k c b rest g :
+    desugar_stmt L fl (SCond k c b rest) g =
+    (FCondGoto (negate k) (CExpr c) (LCond (S g)) :: fst (desugar_block L fl b (S (S g)))
+       ++ jump_over L (LCondEnd g) rest ++ [FLabel (LCond (S g))]
+       ++ fst (desugar_chain L fl (LCondEnd g) rest (snd (desugar_block L fl b (S (S g)))))
+       ++ [FLabel (LCondEnd g)],
+     snd (desugar_chain L fl (LCondEnd g) rest (snd (desugar_block L fl b (S (S g)))))).
+  Proof. reflexivity. Qed.
+  Lemma desugar_SLoop id b g :
+    desugar_stmt L fl (SLoop id b) g =
+    (FLabel (LLoop g) :: fst (desugar_block L fl b (S g)) ++ [FGoto (LLoop g); FLabel (LLoopEnd id)],
+     snd (desugar_block L fl b (S g))).
+  Proof. reflexivity. Qed.
+  Lemma desugar_SDoWhile id c b g :
+    desugar_stmt L fl (SDoWhile id c b) g =
+    (FLabel (LLoop g) :: fst (desugar_block L fl b (S g))
+       ++ [FCondGoto KIf (CExpr c) (LLoop g); FLabel (LLoopEnd id)],
+     snd (desugar_block L fl b (S g))).
+  Proof. reflexivity. Qed.
+  Lemma desugar_SWhile id c b g :
+    desugar_stmt L fl (SWhile id c b) g =
+    (FCondGoto KUnless (CExpr c) (LCond g) :: FLabel (LLoop (S g)) :: fst (desugar_block L fl b (S (S g)))
+       ++ [FCondGoto KIf (CExpr c) (LLoop (S g)); FLabel (LCond g); FLabel (LLoopEnd id)],
+     snd (desugar_block L fl b (S (S g)))).
+  Proof. reflexivity. Qed.
+  Lemma desugar_STimesN id count b g :
+    desugar_stmt L fl (STimes id None count b) g =
+    (FDeclTemp g :: FSet (FTemp g) count
+       :: (if zero_test (const_int L count) then [FCondGoto KIf (CIsZero (FTemp g)) (LTimesZero (S g))] else [])
+       ++ FLabel (LLoop (S (S g))) :: fst (desugar_block L fl b (S (S (S g))))
+       ++ [FCondGoto KIf (count_cond L fl (FTemp g)) (LLoop (S (S g))); FLabel (LTimesZero (S g));
+           FScopeEndTemp g; FLabel (LLoopEnd id)],
+     snd (desugar_block L fl b (S (S (S g))))).
+  Proof. reflexivity. Qed.
+  Lemma desugar_STimesC id u count b g :
+    desugar_stmt L fl (STimes id (Some u) count b) g =
+    (FSet (FUser u) count
+       :: (if zero_test (const_int L count) then [FCondGoto KIf (CIsZero (FUser u)) (LTimesZero g)] else [])
+       ++ FLabel (LLoop (S g)) :: fst (desugar_block L fl b (S (S g)))
+       ++ [FCondGoto KIf (count_cond L fl (FUser u)) (LLoop (S g)); FLabel (LTimesZero g);
+           FLabel (LLoopEnd id)],
+     snd (desugar_block L fl b (S (S g)))).
+  Proof. reflexivity. Qed.
+  Lemma desugar_BNil g : desugar_stmts L fl BNil g = ([], g).
+  Proof. reflexivity. Qed.
+  Lemma desugar_BCons s b g :
+    desugar_stmts L fl (BCons s b) g =
+    (fst (desugar_stmt L fl s g) ++ fst (desugar_stmts L fl b (snd (desugar_stmt L fl s g))),
+     snd (desugar_stmts L fl b (snd (desugar_stmt L fl s g)))).
+  Proof. reflexivity. Qed.
+  Lemma desugar_CEnd ve g : desugar_chain L fl ve CEnd g = ([], g).
+  Proof. reflexivity. Qed.
+  Lemma desugar_CElse ve b g : desugar_chain L fl ve (CElse b) g = desugar_block L fl b g.
+  Proof. reflexivity. Qed.
+  Lemma desugar_CElif ve k c b rest g :
+    desugar_chain L fl ve (CElif k c b rest) g =
+    (FCondGoto (negate k) (CExpr c) (LCond g) :: fst (desugar_block L fl b (S g))
+       ++ jump_over L ve rest ++ [FLabel (LCond g)]
+       ++ fst (desugar_chain L fl ve rest (snd (desugar_block L fl b (S g)))),
+     snd (desugar_chain L fl ve rest (snd (desugar_block L fl b (S g))))).
+  Proof. reflexivity. Qed.
+  Lemma desugar_block_eq b g :
+    desugar_block L fl b g = (fst (desugar_stmts L fl b g) ++ scope_ends L b, snd (desugar_stmts L fl b g)).
+  Proof. reflexivity. Qed.
+
   Lemma code_after_app (c1 c2 : list (finstr L)) t :
     code_after L (c1 ++ c2) t = code_after L c2 (code_after L c1 t).
   Proof. revert t; induction c1; intros; cbn [app code_after]; auto. Qed.
@@ -37,4 +112,39 @@ Section Static.
       cbn [desugar_stmt desugar_stmts desugar_chain stmt_after block_after chain_after];
       try destruct (zero_test (const_int L count)); ca; rewrite ?H; ca; rewrite ?H0; ca; reflexivity.
   Qed.
+
+  Lemma times_preserved_block b g t : code_after L (fst (desugar_block L fl b g)) t = block_after L b t.
+  Proof.
+    rewrite desugar_block_eq. cbn [fst]. rewrite code_after_app, scope_ends_after.
+    apply times_preserved_all.
+  Qed.
+
+  Lemma desugar_block_snd b g : snd (desugar_block L fl b g) = snd (desugar_stmts L fl b g).
+  Proof. reflexivity. Qed.
+
+  (* gensym numbers only grow *)
+  Lemma gensym_mono :
+    (forall s g, (g <= snd (desugar_stmt L fl s g))%nat) /\
+    (forall b g, (g <= snd (desugar_stmts L fl b g))%nat) /\
+    (forall c ve g, (g <= snd (desugar_chain L fl ve c g))%nat).
+  Proof.
+    apply sbc_ind; intros; try destruct clobber;
+      rewrite ?desugar_SAtom, ?desugar_SBreak, ?desugar_SCondBreak, ?desugar_SBlock, ?desugar_SCond,
+        ?desugar_SLoop, ?desugar_SDoWhile, ?desugar_SWhile, ?desugar_STimesN, ?desugar_STimesC,
+        ?desugar_BNil, ?desugar_BCons, ?desugar_CEnd, ?desugar_CElse, ?desugar_CElif;
+      cbn [fst snd]; rewrite ?desugar_block_snd; auto.
+    - pose proof (H (S (S g))). pose proof (H0 (LCondEnd g) (snd (desugar_stmts L fl b (S (S g))))). lia.
+    - pose proof (H (S g)). lia.
+    - pose proof (H (S (S g))). lia.
+    - pose proof (H (S g)). lia.
+    - pose proof (H (S (S g))). lia.
+    - pose proof (H (S (S (S g)))). lia.
+    - pose proof (H g). pose proof (H0 (snd (desugar_stmt L fl s g))). lia.
+    - pose proof (H (S g)). pose proof (H0 ve (snd (desugar_stmts L fl b (S g)))). lia.
+  Qed.
 End Static.
+
+Ltac dsg :=
+  rewrite ?desugar_SAtom, ?desugar_SBreak, ?desugar_SCondBreak, ?desugar_SBlock, ?desugar_SCond,
+    ?desugar_SLoop, ?desugar_SDoWhile, ?desugar_SWhile, ?desugar_STimesN, ?desugar_STimesC,
+    ?desugar_BNil, ?desugar_BCons, ?desugar_CEnd, ?desugar_CElse, ?desugar_CElif.
